@@ -315,9 +315,15 @@ Fixpoint rename_from (l : list nat) (seen : list nat) : list nat :=
   end.
 Definition canon (l : list nat) : list nat := rename_from l [].
 
-(* partition(threshold): None = "cannot create graphs with no vertex" *)
+(* Forest.isleaf: not the parent of another vertex *)
+Definition forest_isleaf (parents : list nat) (v : nat) : bool :=
+  negb (existsb (fun w => negb (Nat.eqb w v) && Nat.eqb (nth w parents w) v) (seq 0 (length parents))).
+
+(* partition(threshold): valid = (self.height < threshold) | self.isleaf()  (since /repo 813b3d1 the leaves are
+   always kept); None = "cannot create graphs with no vertex" *)
 Definition partition (parents : list nat) (height : list Q) (th : Q) : option (list nat) :=
-  let valid v := if src_partition_strict then Qltb (nth v height 0) th else Qle_bool (nth v height 0) th in
+  let valid v := (if src_partition_strict then Qltb (nth v height 0) th else Qle_bool (nth v height 0) th)
+                 || (src_partition_keeps_leaves && forest_isleaf parents v) in
   if existsb valid (seq 0 (length parents)) then Some (canon (cut_labels parents valid)) else None.
 
 Fixpoint insq (x : Q) (l : list Q) : list Q :=
